@@ -71,8 +71,12 @@ def gen_metrics_temporal(repo):
     # --- ObservableRegistry::Observe iterates callbacks_ once
     txt = X._strip_comments(X._read(repo, 'sdk/src/metrics/state/observable_registry.cc'))
     body = _fn_body(txt, r'void ObservableRegistry::Observe\s*\([^)]*\)\s*\{', 'ObservableRegistry::Observe')
-    n = len(re.findall(r'callback_wrap->callback\(ob_res, callback_wrap->state\);', body))
-    loops = len(re.findall(r'for\s*\(auto &callback_wrap : callbacks_\)', body))
+    n = len(re.findall(r'(?:->|\.)\s*callback\s*\(', body))
+    loops = len(re.findall(r'for\s*\(\s*(?:const\s+)?auto\s*&\s*\w+\s*:\s*callbacks_\s*\)', body))
+    if loops != 1 or n != 2:
+        # moved into a helper, merged into one templated call, ...: how often a callback runs per collection is what the
+        # correspondence run observes directly (`each-callback-once-per-collect`), so this is a change of shape, not of value
+        raise X.ShapeChanged(f'ObservableRegistry::Observe: {loops} loop(s) over callbacks_ with {n} textual callback invocation(s) (the model mirrors 1 loop, 2 sites)')
     out.append('/-- `Observe`: one loop over `callbacks_`, one invocation per value type branch -/\n'
                f'def observeLoops : Nat := {loops}\n\ndef observeInvocationSites : Nat := {n}\n')
     out.append('end Otel.Gen\n')
